@@ -300,7 +300,7 @@ def run(ctx):
     rejp = {}
     for pid, env, why in rej:
         rejp.setdefault(pid, []).append(why)
-    for pid in sorted(rejp)[:40]:
+    for pid in sorted(rejp)[:12]:      # (the rest is counted in `rejections`; 12 reproduced witnesses are enough to read)
         p = pairs[pid]
         cfg, src = p['cfgs'][0], p['in']
         c = confirm_alone(ctx, exe, src, cfg, p['nenv'], p['probe'])
